@@ -52,7 +52,7 @@ Section Proofs.
     exists j, j < ht_prealloc_count t /\ f (h_next h + j) = false.
   Proof.
     unfold ht_expand, ht_prealloc_count.
-    destruct (Nat.eqb (ht_size t) (Z.to_nat ARES__HTABLE_MAX_BUCKETS)).
+    destruct (Z.eqb (Z.of_nat (ht_size t)) ARES__HTABLE_MAX_BUCKETS).
     { intros H Hr. inversion H; subst. simpl in Hr. discriminate. }
     intros H Hr.
     apply bindM_ok_inv in H as (arr & h1 & Ha & H).
@@ -105,7 +105,7 @@ Section Proofs.
 
   (* conversely: a refused request among the pre-allocations makes the expansion fail cleanly *)
   Theorem ht_expand_refused t h j :
-    Nat.eqb (ht_size t) (Z.to_nat ARES__HTABLE_MAX_BUCKETS) = false ->
+    Z.eqb (Z.of_nat (ht_size t)) ARES__HTABLE_MAX_BUCKETS = false ->
     j < ht_prealloc_count t -> f (h_next h + j) = false ->
     exists h', ht_expand hash f t h = Ok ((false, t), h') /\ h_live h' = h_live h.
   Proof.
@@ -147,7 +147,7 @@ Section Proofs.
   Lemma ht_expand_c14 t h :
     (forall r h', ht_expand hash f t h = Ok (r, h') -> fst r = false ->
        snd r = t /\ h_live h' = h_live h /\ exists j, j < ht_prealloc_count t /\ f (h_next h + j) = false) /\
-    (forall j, Nat.eqb (ht_size t) (Z.to_nat ARES__HTABLE_MAX_BUCKETS) = false ->
+    (forall j, Z.eqb (Z.of_nat (ht_size t)) ARES__HTABLE_MAX_BUCKETS = false ->
        j < ht_prealloc_count t -> f (h_next h + j) = false ->
        exists h', ht_expand hash f t h = Ok ((false, t), h') /\ h_live h' = h_live h).
   Proof.
